@@ -17,6 +17,8 @@ CONSTANTS NAMES,        \* metric names
           Thr,          \* metrics.MaxAlertThreshold (code: 1)
           CheckMode,    \* "per_metric": CheckPeers calls alert() once per stored metric (checker.go as found)
                         \* "once": every (peer, name) is evaluated once per check (as coded after fix 5970698)
+          ForgetMode,   \* "name": reaching the threshold drops the alert record of that (peer, name) only (as coded)
+                        \* "peer": it drops the peer's whole record, i.e. the counters of its other names too
           RenewMode     \* "sticky": the alert counter survives a renewal (checker.go as found)
                         \* "restart": a newer latest metric restarts the alert cycle (as coded after fix af6d3bd)
 
@@ -75,7 +77,7 @@ AlertOne(st, p, nm) ==
         stale == RenewMode = "restart" /\ st.c > 0 /\ st.mid # lid
         c0    == IF stale THEN 0 ELSE st.c
     IN IF c0 >= Thr
-       THEN [st EXCEPT !.q = <<>>, !.c = 0, !.mid = 0]             \* RemovePeerMetrics + delete counter
+       THEN [st EXCEPT !.q = <<>>, !.c = 0, !.mid = 0, !.fg = TRUE] \* RemovePeerMetrics + delete counter
        ELSE [st EXCEPT !.c = c0 + 1, !.mid = lid,
                        !.out = Append(@, [peer |-> p, name |-> nm, mid |-> lid])]
 
@@ -91,19 +93,22 @@ ItersPeers(q) == IF CheckMode = "per_metric" THEN Len(q) ELSE IF q = <<>> THEN 0
 ItersAll(q)   == IF q # <<>> /\ Last(q).valid THEN 1 ELSE 0
 
 \* kind = "peers" (scope = S \X NAMES) or "all"; acc[<<p, nm>>] = accrual verdict where it applies
+\* The pairs are evaluated one after the other on the shared failedPeers table (iteration order of
+\* the names is Go map order: any fixed order is one of the allowed ones; with ForgetMode "name" the
+\* pairs do not interact and the order is irrelevant).
 Check(s, kind, S, acc) ==
     LET scope == IF kind = "peers" THEN S \X NAMES ELSE Pairs
         it(q) == IF kind = "peers" THEN ItersPeers(q) ELSE ItersAll(q)
-        res   == [pr \in scope |->
-                    LET p == pr[1] nm == pr[2] q == s.win[nm][p] f == s.failed[p][nm]
-                    IN EvalPair(s, [q |-> q, c |-> f.c, mid |-> f.mid, out |-> <<>>], p, nm, it(q), acc[pr])]
-        s2    == [s EXCEPT
-                    !.win    = [nm \in NAMES |-> [p \in PEERS |->
-                                   IF <<p, nm>> \in scope THEN res[<<p, nm>>].q ELSE @[nm][p]]],
-                    !.failed = [p \in PEERS |-> [nm \in NAMES |->
-                                   IF <<p, nm>> \in scope THEN [c |-> res[<<p, nm>>].c, mid |-> res[<<p, nm>>].mid]
-                                   ELSE @[p][nm]]]]
-    IN [s |-> s2, alerts |-> FoldSet(LAMBDA pr, a : a \o res[pr].out, <<>>, scope)]
+        one(pr, a) ==
+            LET p == pr[1] nm == pr[2] q == a.s.win[nm][p] f == a.s.failed[p][nm]
+                r == EvalPair(a.s, [q |-> q, c |-> f.c, mid |-> f.mid, out |-> <<>>, fg |-> FALSE], p, nm, it(q), acc[pr])
+                fl == IF ForgetMode = "peer" /\ r.fg
+                      THEN [a.s.failed EXCEPT ![p] = [x \in NAMES |-> [c |-> 0, mid |-> 0]]]
+                      ELSE a.s.failed
+            IN [s |-> [a.s EXCEPT !.win[nm][p] = r.q,
+                                  !.failed = [fl EXCEPT ![p][nm] = [c |-> r.c, mid |-> r.mid]]],
+                alerts |-> a.alerts \o r.out]
+    IN FoldSet(one, [s |-> s, alerts |-> <<>>], scope)
 
 \* One iteration of Checker.Watch as started by pubsubmon (peersF = the monitor's peers function):
 \* no peers function -> CheckAll; peers function fails -> skip this tick; else CheckPeers(peers)
